@@ -280,6 +280,10 @@ func (c15) Run(c *fw.Case) {
 		failedCalls(c) // call history: failed calls before the case must leave nothing behind
 	}
 	r := c.R
+	if c.Idx%10 == 4 {
+		c15{}.defaultsBesideRefs(c)
+		return
+	}
 	g := &dgen{r: r, names: []string{"a", "b", "c", "é"}, noNull: c.Idx%3 != 0}
 	if c.Idx%5 == 2 {
 		// names that are other names joined by a separator: whatever an implementation joins or splits (required lists, paths,
@@ -513,4 +517,72 @@ func padDefaults(s *jsonschema.Schema, r *rand.Rand, depth int) {
 	for _, c := range s.Defs {
 		padDefaults(c, r, depth+1)
 	}
+}
+
+// defaultsBesideRefs (L5 with references, both drafts): a default may sit in a subschema that is, or contains, a reference.
+// It has to validate against the subschema that declares it - under draft-07 a subschema with $ref IS its target (siblings
+// such as type are ignored), under 2020-12 target and siblings both count. Defaults are drawn valid or invalid for the target.
+func (c15) defaultsBesideRefs(c *fw.Case) {
+	r := c.R
+	d7 := r.IntN(2) == 0
+	defsKey, draft := "$defs", refmodel.D2020
+	doc := map[string]any{}
+	if d7 {
+		defsKey, draft = "definitions", refmodel.D7
+		doc["$schema"] = gen.Schema7URI
+	}
+	targets := map[string]any{
+		"port": map[string]any{"type": "integer", "minimum": json.Number("1")},
+		"name": map[string]any{"type": "string", "minLength": json.Number("2")},
+		"flag": map[string]any{"type": "boolean"},
+		"list": map[string]any{"type": "array", "items": map[string]any{"type": "integer"}},
+	}
+	doc[defsKey] = targets
+	vals := []any{json.Number("80"), json.Number("0"), "eighty", "x", true, nil, []any{json.Number("1")}, []any{"a"}, json.Number("1.5")}
+	props := map[string]any{}
+	for i := 0; i < 1+r.IntN(3); i++ {
+		tname := gen.Pick(r, sortedKeys(targets))
+		node := map[string]any{"$ref": "#/" + defsKey + "/" + tname, "default": gen.Clone(gen.Pick(r, vals))}
+		switch r.IntN(4) {
+		case 0: // a sibling that contradicts the target: ignored under draft-07, binding under 2020-12
+			node["type"] = gen.Pick(r, []string{"null", "string", "integer"})
+		case 1: // the reference one level down, the default beside the applicator
+			node = map[string]any{"allOf": []any{map[string]any{"$ref": node["$ref"]}}, "default": node["default"]}
+		}
+		props[fmt.Sprintf("p%d", i)] = node
+	}
+	doc["properties"] = props
+	text := gen.Text(doc)
+	var s jsonschema.Schema
+	var err error
+	if !c.CallChecked("Unmarshal+Resolve(ValidateDefaults)", map[string]any{"schema": json.RawMessage(text)}, func() {
+		if err = json.Unmarshal([]byte(text), &s); err == nil {
+			_, err = s.Resolve(&jsonschema.ResolveOptions{ValidateDefaults: true})
+		}
+	}) {
+		return
+	}
+	m, merr := refmodel.Build(&refmodel.Universe{Draft: draft, Root: gen.Parse(text)})
+	if merr != nil {
+		return
+	}
+	m.MaxSteps = 20000
+	ptrs, dvals := collectDefaults(gen.Parse(text))
+	allOK, bad := true, ""
+	for i, p := range ptrs {
+		ok, verr := m.ValidateAt(p, dvals[i])
+		if verr != nil {
+			return
+		}
+		if !ok {
+			allOK, bad = false, p
+		}
+	}
+	c.Eval(1)
+	c.Count(fmt.Sprintf("L5refs_all_defaults_valid=%v_d7=%v", allOK, d7), 1)
+	if allOK != (err == nil) {
+		c.Violation(fmt.Sprintf("Resolve(ValidateDefaults) error=%v but the model says all defaults valid=%v (defaults beside references)", err, allOK), map[string]any{"schema": json.RawMessage(text), "invalid_default_at": bad})
+		return
+	}
+	c.Nontrivial(fmt.Sprintf("L5refs|d7=%v|ok=%v|%d", d7, allOK, len(ptrs)))
 }
